@@ -34,6 +34,7 @@
 #include <igris/util/verif_point.h>
 
 #include <algorithm>
+#include <atomic>
 #include <condition_variable>
 #include <deque>
 #include <dlfcn.h>
@@ -851,6 +852,37 @@ static void run_case(const std::vector<std::string> &w, hv::out &o)
         }
         else if (!deadlock)
         {
+            // ---- oracle: every thread has finished — the system lock must be free
+            // (a probe thread takes and releases it; a leaked level would also
+            // poison every later case of this worker)
+            {
+                bool allzero = true;
+                for (int t = 0; t < n; t++)
+                    if (read_log(t).find("c0") == std::string::npos)
+                        allzero = false;
+                if (allzero)
+                {
+                    std::atomic<int> *ok = new std::atomic<int>(0);
+                    std::thread probe([ok]() { system_lock(); system_unlock(); ok->store(1); });
+                    double t0 = now_s();
+                    while (!ok->load() && now_s() - t0 < 3.0)
+                    {
+                        timespec ts = {0, 50000};
+                        nanosleep(&ts, nullptr);
+                    }
+                    if (ok->load())
+                    {
+                        probe.join();
+                        delete ok;
+                    }
+                    else
+                    {
+                        probe.detach();
+                        o.fail("the system lock is still held after every thread finished with lock count 0 (a nested acquisition was not undone)");
+                        worker_must_exit = true;
+                    }
+                }
+            }
             obs += "wq" + std::to_string(c.head->size()) + ";q";
             std::vector<long> rest;
             while (c.q->size())
